@@ -10,6 +10,7 @@ package main
 
 import (
 	"bytes"
+	crand "crypto/rand"
 	"encoding/base64"
 	"encoding/hex"
 	"encoding/json"
@@ -18,6 +19,7 @@ import (
 	"log"
 	"os"
 	"path/filepath"
+	"runtime"
 	"sort"
 	"strconv"
 	"strings"
@@ -96,28 +98,109 @@ func recordOf_c07(msg []byte) []byte {
 	return append(out, msg...)
 }
 
-func helloFromID(id tls.ClientHelloID, seed uint64, sni string) ([]byte, error) {
-	uc := tls.UClient(nil, &tls.Config{ServerName: sni, Rand: NewRng(seed), OmitEmptyPsk: true, InsecureSkipVerify: true}, id)
-	if err := uc.BuildHandshakeState(); err != nil {
-		return nil, err
+// The base hellos are built with Config.Rand and crypto/rand.Reader both served from the run's PRNG
+// (extension shuffling, the GREASE ECH draws and the randomized-spec seed read crypto/rand.Reader
+// directly): the shape of every base hello - extension order, lengths - and with it the number of
+// draws the mutators take from the run's PRNG is a function of VERIF_SEED, so a seed generates the
+// same cases on every run. (crypto/ecdh reads or skips one byte at random by design - see detReader -
+// and ML-KEM key generation takes no reader: detKeyShares overwrites the key_exchange bytes, which
+// every importer treats as opaque, with PRNG bytes.)
+func helloFromID(id tls.ClientHelloID, seed uint64, sni string) (raw []byte, err error) {
+	withDetRand(seed^0x9e3779b97f4a7c15, func() {
+		uc := tls.UClient(nil, &tls.Config{ServerName: sni, Rand: &detReader{r: NewRng(seed)}, OmitEmptyPsk: true, InsecureSkipVerify: true}, id)
+		if err = uc.BuildHandshakeState(); err != nil {
+			return
+		}
+		raw = recordOf_c07(uc.HandshakeState.Hello.Raw)
+	})
+	return detKeyShares(raw, seed), err
+}
+
+// detReader serves a PRNG stream, except that the byte crypto/internal/randutil.MaybeReadByte reads
+// or does not read - at random, by design, in every ecdh / ecdsa key generation (also the one inside the
+// GREASE ECH HPKE setup) - is answered without advancing the stream: what later reads return must
+// not depend on that coin.
+type detReader struct{ r *Rng }
+
+func (d *detReader) Read(p []byte) (int, error) {
+	if len(p) == 1 {
+		var pcs [8]uintptr
+		n := runtime.Callers(2, pcs[:])
+		fr := runtime.CallersFrames(pcs[:n])
+		for {
+			f, more := fr.Next()
+			if strings.HasSuffix(f.Function, "randutil.MaybeReadByte") {
+				p[0] = 0
+				return 1, nil
+			}
+			if !more {
+				break
+			}
+		}
 	}
-	return recordOf_c07(uc.HandshakeState.Hello.Raw), nil
+	d.r.Read(p)
+	return len(p), nil
+}
+
+func withDetRand(seed uint64, f func()) {
+	cryptoRandMu.Lock()
+	defer cryptoRandMu.Unlock()
+	old := crand.Reader
+	crand.Reader = &detReader{r: NewRng(seed)}
+	defer func() { crand.Reader = old }()
+	f()
+}
+
+// detKeyShares overwrites, in place, the key_exchange bytes of every entry of the key_share
+// extension of a well-formed hello record with PRNG bytes (lengths and groups are kept).
+func detKeyShares(raw []byte, seed uint64) []byte {
+	lay := parseLayout(raw)
+	if lay == nil || lay.parts.noExts {
+		return raw
+	}
+	// offset of the first extension: record(5) handshake(4) version(2) random(32) sid suites comp exts-len
+	p := 9 + 2 + 32 + 1 + len(lay.parts.sid) + 2 + len(lay.parts.suites) + 1 + len(lay.parts.comp) + 2
+	r := NewRng(seed ^ 0x6b65797368617265)
+	for _, e := range lay.parts.exts {
+		body := raw[p+4 : p+4+len(e.body)]
+		if e.id == 51 && len(body) >= 2 && int(body[0])<<8|int(body[1]) == len(body)-2 {
+			for q := 2; q+4 <= len(body); {
+				n := int(body[q+2])<<8 | int(body[q+3])
+				if q+4+n > len(body) {
+					break
+				}
+				copy(body[q+4:q+4+n], r.Bytes(n))
+				q += 4 + n
+			}
+		}
+		p += 4 + len(e.body)
+	}
+	return raw
+}
+
+// UTLSIdToSpec shuffles the Chrome extension lists from crypto/rand.Reader.
+func specOfID_c07(id tls.ClientHelloID, seed uint64) (spec tls.ClientHelloSpec, err error) {
+	withDetRand(seed, func() { spec, err = tls.UTLSIdToSpec(id) })
+	return spec, err
 }
 
 func helloFromSpec(spec *tls.ClientHelloSpec, seed uint64, sni string) (raw []byte, err error) {
-	defer func() {
-		if p := recover(); p != nil {
-			err = fmt.Errorf("panic: %v", p)
+	withDetRand(seed^0x9e3779b97f4a7c15, func() {
+		defer func() {
+			if p := recover(); p != nil {
+				err = fmt.Errorf("panic: %v", p)
+			}
+		}()
+		uc := tls.UClient(nil, &tls.Config{ServerName: sni, Rand: &detReader{r: NewRng(seed)}, OmitEmptyPsk: true, InsecureSkipVerify: true}, tls.HelloCustom)
+		if err = uc.ApplyPreset(spec); err != nil {
+			return
 		}
-	}()
-	uc := tls.UClient(nil, &tls.Config{ServerName: sni, Rand: NewRng(seed), OmitEmptyPsk: true, InsecureSkipVerify: true}, tls.HelloCustom)
-	if err := uc.ApplyPreset(spec); err != nil {
-		return nil, err
-	}
-	if err := uc.BuildHandshakeState(); err != nil {
-		return nil, err
-	}
-	return recordOf_c07(uc.HandshakeState.Hello.Raw), nil
+		if err = uc.BuildHandshakeState(); err != nil {
+			return
+		}
+		raw = recordOf_c07(uc.HandshakeState.Hello.Raw)
+	})
+	return detKeyShares(raw, seed), err
 }
 
 type rawExt struct {
@@ -320,7 +403,15 @@ func genSaneSpec(r *Rng) *tls.ClientHelloSpec {
 		s.TLSVersMax = tls.VersionTLS12
 	}
 	// types ExtensionFromID cannot rebuild: kept verbatim under blunt mimicry, an error otherwise
-	add(12, &tls.GenericExtension{Id: uint16(Pick(r, []int{1, 15, 22, 49, 0x7550, 64000})), Data: r.Bytes(r.Intn(6))})
+	// (never a type the spec already carries - FakeChannelIDExtension marshals as 0x7550 too: a hello
+	// with a repeated extension type is not a valid capture)
+	gid := uint16(Pick(r, []int{1, 15, 22, 49, 0x7550, 64000}))
+	for _, e := range xs {
+		if c, ok := e.(*tls.FakeChannelIDExtension); ok && !c.OldExtensionID && gid == 0x7550 {
+			gid = 64000
+		}
+	}
+	add(12, &tls.GenericExtension{Id: gid, Data: r.Bytes(r.Intn(6))})
 	add(6, &tls.CookieExtension{Cookie: r.Bytes(1 + r.Intn(8))})
 	add(40, &tls.UtlsGREASEExtension{})
 	add(50, &tls.UtlsPaddingExtension{GetPaddingLen: tls.BoringPaddingStyle})
@@ -457,7 +548,7 @@ func fpBatch(r *Rng, b int, tier string) []string {
 		if b%12 == 4 {
 			// a PSK parrot with a filled-in pre_shared_key (last): AlwaysAddPadding x RealPSKResumption on a real capture
 			id := Pick(r, []tls.ClientHelloID{tls.HelloChrome_100_PSK, tls.HelloChrome_112_PSK_Shuf, tls.HelloChrome_114_Padding_PSK_Shuf, tls.HelloChrome_115_PQ_PSK})
-			ps, err := tls.UTLSIdToSpec(id)
+			ps, err := specOfID_c07(id, r.U64())
 			if err != nil {
 				return nil
 			}
@@ -1513,7 +1604,7 @@ func jsonBatch(r *Rng, b int, tier string) []string {
 		d = docOfSpec(r, genSaneSpec(r))
 		src = "custom"
 	case b%3 == 1:
-		spec, err := tls.UTLSIdToSpec(parrotIDs[(b/3)%len(parrotIDs)])
+		spec, err := specOfID_c07(parrotIDs[(b/3)%len(parrotIDs)], r.U64())
 		if err != nil {
 			return nil
 		}
